@@ -4,7 +4,7 @@ namespace Neatvi.Drive.ExD
 open Neatvi Neatvi.Lbuf Neatvi.Ex Neatvi.Drive
 
 /-- dirty flag without the bump (as the probe peeks it) -/
-def dirtyPeek (lb : Lb) : Bool := seqAt lb != lb.useqZero
+def dirtyPeek (lb : Lb) : Bool := lb.unsaved || seqAt lb != lb.useqZero
 
 def showStep (rc : Int) (ed : Ed) (fnames : List Bytes) : String :=
   let text := match ed.lb with | some lb => bytesHex lb.lines.flatten | none => "-"
